@@ -282,7 +282,7 @@ func TestC06(t *testing.T) {
 		m.Inconclusive("reference self-test failed: " + err.Error())
 		return
 	}
-	total := m.N(6000, 200000)
+	total := m.N(6000, 120000)
 	m.Cases("hist", total, func(i int64, r *rand.Rand) {
 		a := algB
 		if i%2 == 1 {
@@ -429,17 +429,17 @@ func TestC06(t *testing.T) {
 		}
 	})
 	q := func(a, b int) int { return m.N(a, b) }
-	m.Gate("reads_straddling_node_boundary", q(12000, 400000), "reads whose bytes come from more than one BLAKE2X node")
-	m.Gate("reads_starting_mid_node", q(12000, 400000), "reads starting inside a partially consumed node")
-	m.Gate("reads_into_last_partial_node", q(1200, 40000), "reads delivering bytes of a final node shorter than Out (digest length = L mod Out)")
-	m.Gate("reads_straddling_into_last_partial_node", q(400, 12000), "one read crossing from a full node into the final partial node")
-	m.Gate("eof_exactly_after_declared_length", q(6000, 200000), "non-empty Read after exactly L delivered bytes returned io.EOF")
-	m.Gate("unknown_length_crossed_2^16:blake2s", q(160, 6000), "BLAKE2Xs unknown-length output read beyond 2^16 bytes")
-	m.Gate("unknown_length_crossed_300KiB:blake2b", q(20, 600), "BLAKE2Xb unknown-length output read beyond 300 KiB")
-	m.Gate("clones_in_write_mode", q(600, 20000), "Clone before the first Read, both then absorb different tails")
-	m.Gate("clones_in_read_mode", q(800, 32000), "Clone at a read position, original and clone driven with different chunkings")
-	m.Gate("write_after_read_panics", q(6000, 200000), "documented panic of Write after Read observed")
-	m.Gate("resets_checked", q(1200, 40000), "Reset, second message, output compared from position 0")
+	m.Gate("reads_straddling_node_boundary", q(12000, 240000), "reads whose bytes come from more than one BLAKE2X node")
+	m.Gate("reads_starting_mid_node", q(12000, 240000), "reads starting inside a partially consumed node")
+	m.Gate("reads_into_last_partial_node", q(1200, 24000), "reads delivering bytes of a final node shorter than Out (digest length = L mod Out)")
+	m.Gate("reads_straddling_into_last_partial_node", q(400, 7200), "one read crossing from a full node into the final partial node")
+	m.Gate("eof_exactly_after_declared_length", q(6000, 120000), "non-empty Read after exactly L delivered bytes returned io.EOF")
+	m.Gate("unknown_length_crossed_2^16:blake2s", q(160, 3600), "BLAKE2Xs unknown-length output read beyond 2^16 bytes")
+	m.Gate("unknown_length_crossed_300KiB:blake2b", q(20, 360), "BLAKE2Xb unknown-length output read beyond 300 KiB")
+	m.Gate("clones_in_write_mode", q(600, 12000), "Clone before the first Read, both then absorb different tails")
+	m.Gate("clones_in_read_mode", q(800, 19200), "Clone at a read position, original and clone driven with different chunkings")
+	m.Gate("write_after_read_panics", q(6000, 120000), "documented panic of Write after Read observed")
+	m.Gate("resets_checked", q(1200, 24000), "Reset, second message, output compared from position 0")
 }
 
 // reset: Reset must return to a fresh XOF in write mode with the same L/key.
